@@ -37,6 +37,59 @@ def aircraft(rng, rx, quadrant, with_position=True, cs=None):
 LAST_AIRCRAFT = [0.0, 0.0, False]
 
 
+def make_places(rng, rx, tag):
+    """named places for the Map and Coverage tabs: `--locations` entries and rows of an `--airports` table, in all four
+    quadrants around the receiver, a fraction of a degree to a degree and a half away"""
+    places, args = [], []
+    if rng.random() < 0.4:
+        return places, args
+
+    def spot(name):
+        q = rng.randrange(4)
+        lat = round(rx[0] + rng.uniform(0.1, 1.0) * (1 if q in (0, 1) else -1), 4)
+        lon = round(rx[1] + rng.uniform(0.15, 1.5) * (1 if q in (0, 3) else -1), 4)
+        places.append({"name": name, "lat": round(lat * 1e6), "lon": round(lon * 1e6)})
+        return lat, lon
+    locs = []
+    for i in range(rng.randrange(0, 4)):
+        name = "LOC" + "ABCD"[i]
+        lat, lon = spot(name)
+        locs.append(f"({name},{lat},{lon})")
+    if locs:
+        args += ["--locations"] + locs
+    if rng.random() < 0.5:
+        path = os.path.join(core.BUILD, "work", f"airports_{tag}_{rng.getrandbits(24):06x}.csv")
+        os.makedirs(os.path.dirname(path), exist_ok=True)
+        with open(path, "w") as f:
+            f.write("icao,iata,name,city,subd,country,elevation,lat,lon,tz\n")
+            for i in range(rng.randrange(1, 3)):
+                name = "KV" + "XY"[i] + "Z"
+                lat, lon = spot(name)
+                f.write(f"{name},V{i}Z,Field {i},Town,ST,US,12.0,{lat},{lon},America/Chicago\n")
+        args += ["--airports", path]
+    return places, args
+
+
+def find_places(rows, places, fg):
+    out = []
+    for pl in places:
+        for ri, r in enumerate(rows):
+            ci = r.find(pl["name"])
+            if ci >= 0:
+                out.append({"name": pl["name"], "col": ci, "row": ri, "green": 1 if fg is not None and fg[ri][ci] == 2 else 0})
+                break
+    return out
+
+
+def map_text_cells(rows):
+    cells = []
+    for ri, r in enumerate(rows[5:-2], start=5):
+        for ci, ch in enumerate(r[1:-1], start=1):
+            if ch not in " │─┌┐└┘" and not (0x2800 <= ord(ch) <= 0x28ff):
+                cells.append([ci, ri])
+    return cells[:1500]
+
+
 def parse_screen(rows, draw, fg=None):
     """projection of the reconstructed screen: title counts, table cells, stats values, label positions"""
     ev = {}
@@ -79,12 +132,7 @@ def parse_screen(rows, draw, fg=None):
                     ev["blue"].append([ci, ri])
         ev["blue"] = ev["blue"][:600]
         # ... and the cells of the map holding text (labels are printed over the dots and can hide one)
-        ev["text"] = []
-        for ri, r in enumerate(rows[5:-2], start=5):
-            for ci, ch in enumerate(r[1:-1], start=1):
-                if ch not in " │─┌┐└┘" and not (0x2800 <= ord(ch) <= 0x28ff):
-                    ev["text"].append([ci, ri])
-        ev["text"] = ev["text"][:1500]
+        ev["text"] = map_text_cells(rows)
     ev["labels"] = []
     if draw["tab"] == 0:
         for p in draw["planes"]:
@@ -106,7 +154,8 @@ def session(bindir, rng, tag, tier):
     # a third of the sessions run with a one-second expiry: aircraft leave, others arrive while fewer are tracked than before
     # (the totals count every newly added aircraft, whatever the largest simultaneous count was)
     expiry = rng.random() < 0.34
-    rd = apps.Radar(bindir, srv.port, ["--lat", str(rx[0]), "--long", str(rx[1])] + (["--filter-time", "1"] if expiry else []), size=size)
+    places, place_args = make_places(rng, rx, tag)
+    rd = apps.Radar(bindir, srv.port, ["--lat", str(rx[0]), "--long", str(rx[1])] + (["--filter-time", "1"] if expiry else []) + place_args, size=size)
     try:
         rd.wait_frames(2, 6)
         n_air = rng.randrange(1, 7)
@@ -150,9 +199,9 @@ def session(bindir, rng, tag, tier):
                 rd.send(apps.KEYS["F4"])
                 rd.wait_frames(rd.frame_count() + 2, 3)
                 marks.append(rd.frame_count())
-        seq = ["F3", "Down", "F4", "F1"]
+        seq = ["F3", "Down", "F4", "F2", "F1"]
         for _ in range(rng.randrange(4, 14)):
-            seq.append(rng.choice(["+", "-", "Up", "Down", "Left", "Right", "Enter", "F1", "F3", "F4", "F1", "Tab", "Down", "l", "i", "t", "n"]))
+            seq.append(rng.choice(["+", "-", "Up", "Down", "Left", "Right", "Enter", "F1", "F2", "F3", "F4", "F1", "Tab", "Down", "l", "i", "t", "n"]))
         # long pans along one axis (the custom centre of each axis is set independently)
         pans = []
         for _ in range(rng.randrange(0, 3)):
@@ -193,11 +242,23 @@ def session(bindir, rng, tag, tier):
                 ev = {"ev": "screen", "frame": d["frame"], "tab": d["tab"], "sel": d["sel"], "w": d["w"], "h": d["h"], "scale9": d["scale9"],
                       "lat": d["lat"], "long": d["long"], "clat": d["clat"], "clong": d["clong"], "planes": d["planes"]}
                 ev.update(parse_screen(snaps[d["frame"]], d, snaps_fg.get(d["frame"])))
+                if d["tab"] in (0, 1) and snaps_fg.get(d["frame"]) is not None:
+                    # named places (Map and Coverage draw them alike)
+                    ev["places"] = places
+                    ev["plabels"] = find_places(snaps[d["frame"]], places, snaps_fg.get(d["frame"]))
+                    if "text" not in ev:
+                        ev["text"] = map_text_cells(snaps[d["frame"]])
                 out.append(ev)
         return out
     finally:
         srv.stop()
         rd.cleanup()
+        for i, a in enumerate(place_args):
+            if a == "--airports":
+                try:
+                    os.remove(place_args[i + 1])
+                except OSError:
+                    pass
 
 
 def crowded_session(bindir, rng, tag):
@@ -279,6 +340,8 @@ def run(prop, tier, seed, rep):
                       "stats_screens": sum(1 for e in scr if e["stats_valid"] == 1),
                       "sessions_with_expiry": sum(1 for e in events if e["ev"] == "session_start" and e.get("expiry")),
                       "map_labels_judged": sum(len(e["labels"]) for e in scr),
+                      "place_labels_judged": sum(len(e.get("plabels", [])) for e in scr),
+                      "screens_with_places": sum(1 for e in scr if e.get("places")),
                       "screens_by_tab": {str(t): sum(1 for e in scr if e["tab"] == t) for t in range(5)}})
     rep.samples = [scr[0]] if scr else ["(none)"]
     rep.assumptions += ["the terminal model (drivers/vt.py) reconstructs the screen from the pty output at the hook's frame markers; cell extraction uses the table's fixed column offsets",
